@@ -85,7 +85,7 @@ class Gen:
         return f"o{self.label}"
 
     def const(self):
-        return self.rng.choice([0, 1, 2, "k", "m", None, 3.5, True])
+        return self.rng.choice([0, 1, 2, "k", "m", None, 3.5, True, 0.0, -0.0, 1.0])
 
     def leaf(self, allow_node=True, hashable=False):
         r = self.rng.random()
@@ -95,6 +95,8 @@ class Gen:
             return ["c", self.const()]
         if self.coin(0.5) or hashable:
             return ["o", self.new_label()]
+        if self.coin(0.4):
+            return ["e", self.new_label()]   # equal-but-distinct objects
         cls = self.rng.choice(["MyList", "MyTuple", "MyDict"])
         kids = [self.leaf(allow_node=True, hashable=True) for _ in range(self.rng.randrange(0, 3))]
         return ["X", self.new_label(), cls, kids]
